@@ -2,7 +2,7 @@
 From Coq Require Extraction.
 From Coq Require Import ExtrOcamlBasic.
 From Coq Require Import NArith ZArith List.
-From PTQ Require Import Base.Bytes Base.Result Base.Bits Base.Sha256 Spec.Crc Model.Crc Model.Cell Spec.CellRepr Model.Inst.
+From PTQ Require Import Base.Bytes Base.Result Base.Bits Base.Sha256 Spec.Crc Model.Crc Model.Cell Spec.CellRepr Model.Inst Model.Builder Model.Typed Spec.TlbPrim Spec.TlbVal.
 
 Extraction "Extract/model.ml"
   N.add N.mul N.of_nat N.to_nat Z.add Z.mul Z.opp Z.of_N Z.to_N
@@ -10,4 +10,7 @@ Extraction "Extract/model.ml"
   sha256 of_bits to_bits of_be be_bytes bits_to_bytes bytes_to_bits
   cell kcell k_ty k_bits k_refs k_mask k_hashes k_depths k_hash cell_eqb cell_pyhash
   get_hash get_depth mk_cell_sha build_sha repr_hash_sha
-  s_depth s_mask s_hash_sha s_hd_sha s_prune_sha.
+  s_depth s_mask s_hash_sha s_hd_sha s_prune_sha
+  builder slice addr tval ttype b_empty store1 load1 preload1 store_all load_all ty_of b_end_cell begin_parse
+  b_store_snake s_load_snake b_store_cell b_store_slice b_store_string s_skip s_load_ref s_to_cell
+  s_enc s_refs_of tval_ok sop sstep.
